@@ -99,6 +99,13 @@ def _apply_history(ctx, h, charts):
                     setattr(m, k, m.objs[k].after(b, include_end=True))
         elif h == "filter-all":
             b = ctx.real(tag + "b")
+            # (the chart must stay convertible: the hit on the highest lane keeps the key count, one tempo point remains)
+            cols_, offs_ = col(m.hits.df, "column"), col(m.hits.df, "offset")
+            top = max(cols_)
+            for c_, t_ in zip(cols_, offs_):
+                if c_ == top:
+                    ctx.assume(t_ >= b)
+            ctx.assume(col(m.bpms.df, "offset")[-1] >= b)
             for k in list(m.objs):
                 if k in ("hits", "holds", "bpms", "svs"):
                     setattr(m, k, m.objs[k].after(b, include_end=True))
@@ -111,9 +118,10 @@ def _apply_history(ctx, h, charts):
         elif h == "append":
             x = ctx.real(tag + "x")
             m.hits = m.hits.append(m.hits[0])
-            hh = m.holds[0]
-            hh.offset = x
-            m.holds = m.holds.append(hh, sort=True)
+            if len(m.holds):  # (an earlier step of a two-step history may have filtered every hold away)
+                hh = m.holds[0]
+                hh.offset = x
+                m.holds = m.holds.append(hh, sort=True)
         elif h == "stack":
             d = ctx.real(tag + "d")
             m.stack().offset += d
